@@ -631,6 +631,40 @@ def array_body(c):
     t = onp.asarray(t)
     if t.shape != want_t.shape or not float(onp.max(onp.abs(t - want_t), initial=0.0)) <= tol:
         return fail("wrong_value", f"forward mode: J v = {want_t.tolist()} but make_jvp gives {t.tolist()}", bucket("forward"), sample=sample)
+    # the backward program is itself a composition of the same operations: differentiating it with respect to its cotangent AT THE ZERO
+    # COTANGENT (make_jvp_reversemode) must give J v again - every recorded operation's rule is linear in the cotangent it receives
+    try:
+        t_rr = onp.asarray(autograd.differential_operators.make_jvp_reversemode(f)(x0)(v))
+    except Exception as e:
+        if not from_autograd(e):
+            raise
+        return fail("unexpected_exception", "make_jvp_reversemode: " + describe_exc(e), bucket("exception_rr"), sample=sample)
+    if t_rr.shape != want_t.shape or not float(onp.max(onp.abs(t_rr - want_t), initial=0.0)) <= tol:
+        return fail("wrong_value", f"derivative of the backward pass at a zero cotangent: J v = {want_t.tolist()} but make_jvp_reversemode gives {t_rr.tolist()}",
+                    bucket("reverse_of_reverse"), sample=sample)
+    # forward mode THROUGH the backward pass of the same graph (the accumulation of contributions - dense, sparse, shared cotangent objects
+    # - is then itself traced): d/dt [J(x + t v)^T g1] from the reference sweep at two pairs of perturbed points
+    def ref_grad(xp):
+        return (dual.jacobian(progs.run, prog, xp)[1].T @ g1.ravel()).reshape(x0.shape)
+
+    d1 = (ref_grad(x0 + 1e-5 * v) - ref_grad(x0 - 1e-5 * v)) / 2e-5
+    d2 = (ref_grad(x0 + 2e-5 * v) - ref_grad(x0 - 2e-5 * v)) / 4e-5
+    hv_ref = (4 * d1 - d2) / 3
+    hscale = max(1.0, scale, float(onp.max(onp.abs(hv_ref), initial=0.0)))
+    if onp.all(onp.isfinite(hv_ref)) and float(onp.max(onp.abs(d1 - d2), initial=0.0)) <= 1e-6 * hscale:
+        try:
+            hv = onp.asarray(autograd.make_jvp(autograd.grad(lambda x: anp.sum(f(x) * g1)))(x0)(v)[1])
+        except Exception as e:
+            if not from_autograd(e):
+                raise
+            return fail("unexpected_exception", "forward over reverse: " + describe_exc(e), bucket("exception_fr"), sample=sample)
+        if hv.shape == hv_ref.shape and not onp.all(onp.isfinite(hv)):
+            # saturated intermediate values (tanh / exp of a huge argument): the closed forms of second derivatives overflow to nan there;
+            # finiteness of higher derivatives at extreme magnitudes is C07's subject, not the accumulation order checked here
+            return Outcome("inconclusive", detail="non-finite second-order result at a saturated point", sample=sample)
+        if hv.shape != hv_ref.shape or not float(onp.max(onp.abs(hv - hv_ref), initial=0.0)) <= 1e-6 * hscale * max(1.0, x0.size):
+            return fail("wrong_value", f"forward mode through the backward pass: d/dt J(x+tv)^T g = {hv_ref.tolist()} but make_jvp(grad) gives {hv.tolist()}",
+                        bucket("forward_over_reverse"), sample=sample)
     uses = {}
     for st in prog["stmts"]:
         for a_ in (st[2:4] if st[0] in ("b", "cat") else [st[2]] if st[0] in ("u", "k") else [st[1]]):
